@@ -8,6 +8,9 @@ BASE_NOTE = "Trusted base: Go 1.26.8 toolchain (testing/synctest for the virtual
 
 # property -> (technique, level text, design ref, extra note)
 CLAIMED = {
+ "C05": ("model-based history search in a synctest bubble: scripted wire-level peer, reference de-duplication table over handler log and wire log",
+         "Generated duplication/re-ordering histories (20k quick / 400k thorough) against a real server-side connection on an in-memory datagram link with a virtual clock, so the 247 s lifetime boundary is hit exactly (first arrival + 247 s - eps, last reply + 247 s + eps); both the default processing loop and a goroutine per message; oracle is a reference de-duplication table evaluated over the complete history. Bounded search; goroutine interleavings are the runtime's.",
+         "DESIGN.md 3/C05", ""),
  "C15": ("model-based testing against a reference sorted multiset; exhaustive short operation sequences + rapid sequences",
          "Every sequence of length <= 4 over {set, add, remove} x 3 ids x 2 values x 3 capacities is enumerated on both message.Options and pool.Message (complete for that sub-domain); beyond it 120k (quick) / 3M (thorough) generated sequences of up to 14 operations from the full editing API, with the whole list and every query compared with the model after each step.",
          "DESIGN.md 3/C15", ""),
